@@ -36,24 +36,39 @@ def load_known():
     return out
 
 
-def run_floor(prop, tier, seed):
+def start_floor(prop, tier, seed):
     path = os.path.join(ROOT, 'native', 'floor_%s.py' % prop)
     if not os.path.exists(path):
-        return None, 'no floor'
+        return None
+    os.makedirs(os.path.join(ROOT, 'evidence'), exist_ok=True)
     out = os.path.join(ROOT, 'evidence', '.floor_%s.json' % prop)
     if os.path.exists(out):
         os.unlink(out)
     env = dict(os.environ)
     env['PYTHONPATH'] = REPO + os.pathsep + os.path.join(ROOT, 'native')
     env['PYTHONHASHSEED'] = env.get('PYTHONHASHSEED', '0')
+    errf = open(out + '.err', 'w')
+    p = subprocess.Popen(['/venv/bin/python', '-u', path, '--tier', tier, '--seed', str(seed), '--out', out],
+                         env=env, stdout=errf, stderr=subprocess.STDOUT, cwd=ROOT)
+    return (p, out, errf, tier)
+
+
+def finish_floor(handle):
+    if handle is None:
+        return None, 'no floor'
+    p, out, errf, tier = handle
     budget = 140 if tier == 'quick' else 1800
     try:
-        p = subprocess.run(['/venv/bin/python', '-u', path, '--tier', tier, '--seed', str(seed), '--out', out],
-                           env=env, capture_output=True, text=True, timeout=budget + 120, cwd=ROOT)
+        p.wait(timeout=budget + 120)
     except subprocess.TimeoutExpired:
+        p.kill()
         return None, 'floor timed out'
+    finally:
+        errf.close()
+    err = open(out + '.err').read()[-800:]
+    os.unlink(out + '.err')
     if not os.path.exists(out):
-        return None, 'floor crashed (exit %d): %s' % (p.returncode, (p.stderr or '')[-800:])
+        return None, 'floor crashed (exit %d): %s' % (p.returncode, err)
     d = json.load(open(out))
     os.unlink(out)
     if p.returncode not in (0, 3):
@@ -118,6 +133,7 @@ def main():
     violations, known_lines, undecided = [], [], []
     checker_errors = []
 
+    fl_handle = None if a.only_prover else start_floor(prop, a.tier, a.seed)
     # ---------------- deductive side
     pr = None
     if not a.only_floor:
@@ -129,7 +145,7 @@ def main():
     # ---------------- bounded floor
     fl, fl_err = (None, None)
     if not a.only_prover:
-        fl, fl_err = run_floor(prop, a.tier, a.seed)
+        fl, fl_err = finish_floor(fl_handle)
         if fl_err and fl_err != 'no floor':
             checker_errors.append('floor: ' + fl_err)
         if fl and fl.get('harness_errors'):
